@@ -126,7 +126,8 @@ def run_shard(sh):
             if budget.expired():
                 break
             r = S.random_walk(cfg, [StopMonitor], alpha, rng, sh['length'], multi=True,
-                              weights={'TICK': 6, 'ACCEPT': 3, 'REFUSE': 2, 'STOP': 1.5, 'START': 1.0})
+                              weights={'TICK': 6, 'ACCEPT': 3, 'REFUSE': 2, 'STOP': 1.5, 'START': 1.0},
+                              rest=('Q_UPD', 'Q_NOTI') if i % 3 == 0 else ())
             if not r.monitors[0].stopped:
                 r.step('STOP')
             continuation(r, stats)
